@@ -521,3 +521,46 @@ def rule_e4(repo, res):
                                 "so statements of the text go missing or change place when a name is repeated",
                                 where=f"pvl/parser.py:{x.lineno}"))
     res.floor("parser methods that build containers", n, 3)
+
+
+ONE_SHOT = {"iter", "map", "filter", "zip", "reversed", "enumerate", "chain", "chain.from_iterable", "itertools.chain",
+            "itertools.chain.from_iterable", "islice", "itertools.islice"}
+
+
+def rule_one_shot_iterators(repo, res, families=("PVLParser", "PVLDecoder", "PVLEncoder")):
+    """E-ITER: no one-shot iterator (generator expression, iter/map/filter/zip/chain object) is stored in an instance
+    or class attribute: the first call that walks it exhausts it, so later calls on the same instance see an empty
+    table -- state that survives between calls."""
+    n = 0
+    for base in list(families) + ["PVLGrammar", "Token"]:
+        if not repo.has_cls(base):
+            continue
+        for c in repo.subclasses(base):
+            ci = repo.classes[c]
+            stores = []
+            for m, fn in ci.methods.items():
+                for x in ast.walk(fn):
+                    if isinstance(x, ast.Assign) and any(self_attr(t) for t in x.targets):
+                        stores.append((m, x))
+            for name, val in ci.aliases.items():
+                stores.append(("<class body>", ast.Assign(targets=[ast.Name(id=name)], value=val, lineno=getattr(val, "lineno", 0))))
+            for m, x in stores:
+                n += 1
+                bad = [y for y in ast.walk(x.value) if isinstance(y, ast.GeneratorExp) and
+                       not (isinstance(getattr(y, "_parent", None), ast.Call) and norm(y._parent.func) in
+                            ("tuple", "list", "set", "frozenset", "sorted", "dict", "any", "all", "sum", "max", "min", "str.join")
+                            or (isinstance(getattr(y, "_parent", None), ast.Call) and isinstance(y._parent.func, ast.Attribute)
+                                and y._parent.func.attr == "join"))]
+                for y in ast.walk(x.value):
+                    if isinstance(y, ast.Call) and norm(y.func) in ONE_SHOT:
+                        par = getattr(y, "_parent", None)
+                        wrapped = isinstance(par, ast.Call) and norm(par.func) in ("tuple", "list", "set", "frozenset", "sorted", "dict")
+                        if not wrapped:
+                            bad.append(y)
+                res.oblige("E-ITER", f"{c}.{m} `{norm(x, 60)}` stores no one-shot iterator", ok=not bad, nontrivial=False)
+                for y in bad:
+                    res.add(Finding("E-ITER", f"{c}.{m}", norm(x.targets[0]) + " = … " + norm(y, 50),
+                                    f"{c}.{m} stores the one-shot iterator `{norm(y, 60)}` in `{norm(x.targets[0])}`: the first "
+                                    "use exhausts it, so every later call on the same instance sees an empty table and "
+                                    "behaves differently from a fresh instance", where=f"pvl/{ci.module.name}.py:{x.lineno}"))
+    res.floor("attribute stores scanned for one-shot iterators", n, 30)
